@@ -4,16 +4,18 @@ import time
 from vlib import Scratch, inject_overlay, Inconclusive, log, write_evidence
 import kprop
 import overlaycommon as O
+import tablecommon as T
 
 PID = "C05"
 STATIC = {
     "coverage": {
         "functions_encoded": ["<std::time::Instant as tarpc::util::TimeUntil>::time_until",
-                              "timer-arming expression of tarpc::client::in_flight_requests::InFlightRequests::insert_request (textual slice)"],
-        "outside_claim": ["that poll_expired completes the call with DeadlineExceeded; reply-vs-expiry ordering; the DelayQueue wheel and tokio's timer driver (ms granularity) — the real DelayQueue needs a tokio runtime and the dispatch is out of CBMC's reach (DESIGN §1)",
+                              "timer-arming expression of tarpc::client::in_flight_requests::InFlightRequests::insert_request (textual slice)"] + T.FUNCS_C,
+        "outside_claim": ["WHEN the dispatch polls the table for expirations (pump_write's ordering, re-polling after an expiry, a stalled sink): client::RequestDispatch is out of CBMC's reach; the table-level harness decides that a poll yields exactly the calls whose deadline has passed and completes them with the deadline error",
+                          "the real DelayQueue wheel and tokio's timer driver (ms granularity; replaced by a contract model)",
                           "deadline spans beyond 365 days (the timer is allowed to be clamped there, see C16)"],
     },
-    "assumptions": O.OVERLAY_ASSUMPTIONS,
+    "assumptions": O.OVERLAY_ASSUMPTIONS + T.ASSUMPTIONS,
 }
 
 
@@ -29,5 +31,12 @@ def main(tier):
         cwd = os.path.join(s.repo, "tarpc")
         recs, viol, known, inc, wall = kprop.decide(PID, tier, s, "overlay", O.C05, cwd=cwd, timeout_s=1800,
                                                     replay_kw={"as_test": [], "rustflags": "--cfg verif_replay"})
+        # the client's in-flight table: expiry completes the call with the deadline error, never early
+        try:
+            r2, v2, k2, i2, w2 = T.run_tables(PID, tier, s, client=["cift_steps2"] + (["cift_steps3"] if tier == "thorough" else []),
+                                              timeout_s=3000 if tier == "quick" else 7200, harness_timeout=1500 if tier == "quick" else 3600)
+            recs.update(r2); viol += v2; known += k2; inc += i2; wall += w2
+        except Inconclusive as e:
+            inc.append(("client-table-overlay", str(e)))
         return kprop.finish(PID, tier, t0, recs, viol, known, inc, STATIC,
                             {"source_digest": s.src_digest, "kani_wall_s": round(wall, 1), "extracted_from_source": ext})
